@@ -24,6 +24,9 @@ class HippoLLSDBaseFormatter(base_llsd.base.LLSDBaseFormatter):
         self.type_map[Vector3] = self.TUPLECOORD
         self.type_map[Vector4] = self.TUPLECOORD
         self.type_map[Quaternion] = self.TUPLECOORD
+        # bytes subclasses, the type map only matches exact types
+        self.type_map[JankStringyBytes] = self.BINARY
+        self.type_map[RawBytes] = self.BINARY
 
     def TUPLECOORD(self, v: TupleCoord):
         return self.ARRAY(v.data())
